@@ -97,7 +97,7 @@ func (d *c16Data) history() string {
 
 func init() {
 	Register(&Scenario{
-		Prop: "C16", Name: "heartbeat", DeadlockDirected: true,
+		Prop: "C16", Name: "heartbeat", DeadlockDirected: true, Weight: 3,
 		NonTrivial: []string{"c16-refresh-observed"},
 		Build: func(w *World) {
 			d := &c16Data{}
